@@ -215,7 +215,6 @@ import (
 //@ func (*propSet).buildValue
 //@   ensures nonnil: result2 == nil && (result1 || create) ==> result0 != nil
 
-
 // a reflector always has its schema cache (New, NewWithCache with a cache from NewSchemaCache)
 //@ type *Reflector invariant r: r != nil && r.schemaSet != nil && r.schemaSet.packages != nil
 
